@@ -41,9 +41,9 @@ func Assumptions(prop string) []string {
 // function it sits in, see attrib.go.)
 var extraProps = map[string][]string{
 	"FORMATCONST_KEYORDER": {"C01", "C04"}, // built-in key order is the map's order and shapes the reference tree
-	"FORMATCONST_LAYER":    {"C04", "C09"},        // layers determine the canonical shape
-	"SIZE":                 {"C09"},               // Root.Size = number of entries
-	"HASHNAME":             {"C14", "C04"},        // hash and encoding identities are part of the published format
+	"FORMATCONST_LAYER":    {"C04", "C09"}, // layers determine the canonical shape
+	"SIZE":                 {"C09"},        // Root.Size = number of entries
+	"HASHNAME":             {"C14", "C04"}, // hash and encoding identities are part of the published format
 	"DET":                  {"C14"},
 	"ENCINPUTS":            {"C14", "C04"},
 	"LINKNIL":              {"C06", "C07"},
@@ -73,8 +73,8 @@ var extraProps = map[string][]string{
 // quantifiers): an alarm for such a property would be a false alarm even
 // though the code is defective with respect to another property.
 var dropProps = map[string][]string{
-	"CACHEAFTER":    {"C13"}, // a node cached too early causes missing writes (C03), not extra ones
-	"NODEURLPREFIX": {"C18"}, // the prefix is not part of the Load/Store contract
+	"CACHEAFTER":    {"C13"},        // a node cached too early causes missing writes (C03), not extra ones
+	"NODEURLPREFIX": {"C18"},        // the prefix is not part of the Load/Store contract
 	"ERRFLOW":       {"C01", "C05"}, // C01 and C05 quantify over healthy stores
 	"POWLOOP":       {"C09"},
 	"GROWLOOP":      {"C09"}, // a too-small height still satisfies the shape invariants
